@@ -287,7 +287,7 @@ pub fn probe_real_walk(case: &TrainCase, secs: u64) -> Option<String> {
     let txt = serde_json::to_string(case).ok()?;
     let f = dir.join(format!("case-{}-{:016x}.json", std::process::id(), fnv64(&txt)));
     std::fs::write(&f, &txt).ok()?;
-    let mut child = std::process::Command::new(std::env::current_exe().ok()?)
+    let mut child = std::process::Command::new(crate::engine::run::self_exe())
         .args(["probe-walk", f.to_str()?])
         .stdout(std::process::Stdio::piped())
         .stderr(std::process::Stdio::null())
